@@ -64,6 +64,12 @@ def run(ck):
                     o = p.value
                     site = prog.method(cls, "amplitude").site()
                     amp, prob, psi, phase, E = (o[k].term for k in ("amp", "prob", "psi", "phase", "E_am"))
+                    # clamps and small additive constants ("for stability") change the value wherever the unnormalised weight is
+                    # small or large against them: reported once, then the algebra is decided on the value without them
+                    for nm_, tm_ in (("amplitude", amp), ("probability", prob), ("psi", psi), ("phase", phase), ("effective energy", E)):
+                        regs = regularisers(tm_)
+                        ck.check(not regs, "C01.R1", inst + ":%s is not regularised" % nm_, site, "%s: %s" % (nm_, regulariser_msg(regs) if regs else ""), key="C01.R1|%s|%s regularised" % (cls, nm_))
+                    amp, prob, psi, phase, E = (strip_regularisers(x) if x is not None else None for x in (amp, prob, psi, phase, E))
                     ea, ep = exp_arg(amp), exp_arg(prob)
                     # R1: |psi|^2 == p~ == exp(-E_lambda)
                     if ea is None or ep is None:
